@@ -339,6 +339,18 @@ def _run(ctx):
         check_library_built(ctx, gen.text_of(rng, rng.choice(["word", "meta", "markup", "ws", "nl", "exotic", "mixed", "empty"])), k_)
     ctx.require("oracle.library_built_attributes", 300)
 
+    # 2c. sizes ordinary elements never reach: hundreds of attributes from several sources (some names colliding), very long values
+    if ctx.shard == 0:
+        for j in range(3):
+            names_ = ["data_n%d" % k for k in range(130 + 40 * j)]
+            a1 = [(n_, S("v%d \"&<" % k) if k % 5 else HV("h%d&amp;" % k)) for k, n_ in enumerate(names_[:90])]
+            a2 = [(n_, S("w%d'\r\n" % k)) for k, n_ in enumerate(names_[60:])]       # 30 names collide with the first dict
+            kw_ = [(n_, N(k) if k % 3 else S("kw & %d" % k)) for k, n_ in enumerate(names_[::7])] + [("title", S("long \"<&>' " * (9000 + j)))]
+            big = case(name="x-big", args=[a1, a2], kw=kw_, ops=[upd(kw=[("title", S("t&" * 60000))]), {"op": "add_class", "v": S("c1 c2"), "prepend": False}], via="Tag")
+            check_case(ctx, big, "many-attributes")
+            ctx.case(big)
+            ctx.count("many_attribute_elements")
+
     # 3. random hostile values into shapes, and fully random programs
     for _ in range(ctx.budget(4000, 3000000)):
         if rng.random() < 0.5:
